@@ -60,12 +60,12 @@ type request struct {
 	token      string
 	frame      []byte
 	oneway     bool
-	lenient    bool // 0 or 1 replies are both acceptable
-	respLimit  int  // HTTP: value of the x-frugal-payload-limit header (0: none)
-	httpStatus int  // HTTP: status of the response
+	lenient    bool   // 0 or 1 replies are both acceptable
+	respLimit  int    // HTTP: value of the x-frugal-payload-limit header (0: none)
+	httpStatus int    // HTTP: status of the response
 	hdrShape   string // "plain", or what is special about the header block (empty-valued pair last, ...)
-	foreign    bool // HTTP: the response frame carried another request's op id
-	taints     bool // leaves a stream connection in an undefined state
+	foreign    bool   // HTTP: the response frame carried another request's op id
+	taints     bool   // leaves a stream connection in an undefined state
 	sentinel   bool
 
 	expType   thrift.TMessageType // REPLY or EXCEPTION
